@@ -157,6 +157,8 @@ pub fn run_case(version: u32, op: u32, ty: &str, obj: &CanonicalJsonObject, beca
     })
 }
 
+pub fn dump(_dir: &str) {}
+
 pub fn replay(case: &Sx) -> Option<Sx> {
     let l = case.as_list()?;
     let (v, op, ty, obj, b) = (l.first()?.as_int()?, l.get(1)?.as_int()?, l.get(2)?.as_string()?, l.get(3)?, l.get(4)?);
